@@ -391,3 +391,86 @@ def meta_family(tier):
         os.remove(f)
     cache_put(key, res)
     return res
+
+
+# ---------------------------------------------------------------------------------------------
+# migration family (C03, C19)
+# ---------------------------------------------------------------------------------------------
+def migration_family(tier):
+    sd = seed()
+    key = "migration_%s_%s_%d" % (tree_hash(), tier, sd)
+    cached = cache_get(key)
+    if cached:
+        log("migration family: cache hit")
+        return cached
+    t0 = time.time()
+    build_harness()
+    mc = None
+    from vlib import SPEC
+    if os.path.exists(os.path.join(SPEC, "Migration_MC.cfg")):
+        mc = tlc_model_check("migration", "Migration_MC.tla", "Migration_MC.cfg", workers=8,
+                             timeout=900 if tier == "quick" else 3000, xmx="12g", extra="")
+    d = fresh_dir(os.path.join(WORK, "migration_" + tier))
+    parts = 12 if tier == "quick" else 14
+    per = 25 if tier == "quick" else 1200
+    cmds, files = [], []
+    for p in range(parts):
+        f = os.path.join(d, "runs_%02d.ndjson" % p)
+        cmds.append("%s migration-runs --out %s --count %d --seed %d" % (UVERIF, f, per, sd * 73 + p))
+        files.append(f)
+    for p in range(2):
+        f = os.path.join(d, "directed_%02d.ndjson" % p)
+        cmds.append("%s migration-runs --directed --out %s --count %d --seed %d" % (UVERIF, f, 14 if tier == "quick" else 140, sd * 79 + p))
+        files.append(f)
+    rc, out = _run_cmds(cmds, timeout=3300)
+    if rc != 0:
+        raise ToolError("migration rig failed: " + out[-2000:])
+    verdicts = validate_shards("Migration_Trace.tla", "Migration_Trace.cfg", files, jobs=14, timeout=3300)
+    viols, events, incomplete = [], 0, 0
+    for v in verdicts:
+        events += v["n"]
+        incomplete += len(v.get("div", []))
+        if not v["consumed"]:
+            raise ToolError("Migration_Trace did not consume %s\n%s" % (v["shard"], v.get("tlc_tail", "")))
+        lines = None
+        for x in v["viol"]:
+            if lines is None:
+                lines = open(v["shard"]).read().splitlines()
+            e = json.loads(lines[x["line"] - 1])
+            j = x["line"] - 1
+            while j > 0 and json.loads(lines[j]).get("kind") != "reset":
+                j -= 1
+            cls = "-"
+            if "ttlinfo" in e:
+                cls = "pttl=%s:ttl=%s" % (e["ttlinfo"]["pttl_kind"], e["ttlinfo"]["ttl_kind"])
+            viols.append({"mon": x["mon"], "case": e, "cls": cls, "reset": json.loads(lines[j])})
+    runs, nontrivial, restores, samples = 0, 0, 0, []
+    paths = {"scan": 0, "pull": 0, "push": 0}
+    for f in files:
+        cur_inflight, had_conc = 0, False
+        with open(f) as fh:
+            for line in fh:
+                e = json.loads(line)
+                k = e["kind"]
+                if k == "reset":
+                    runs += 1
+                    cur_inflight, had_conc = 0, False
+                elif k == "inv":
+                    cur_inflight += 1
+                elif k == "resp":
+                    cur_inflight -= 1
+                    if e.get("redirects", 0) > 0 and len(samples) < 3:
+                        samples.append(e)
+                elif k == "redis" and "ttlinfo" in e:
+                    restores += 1
+                    # a RESTORE while a client operation is in flight: migration really interleaved with traffic
+                    if cur_inflight > 0 and not had_conc:
+                        had_conc = True
+                        nontrivial += 1
+    res = {"tier": tier, "seed": sd, "wall_s": time.time() - t0, "cases": runs, "kinds": {"events": events, "restores": restores},
+           "nontrivial": nontrivial, "incomplete_runs": incomplete,
+           "violations": viols[:300], "violation_count": len(viols), "samples": samples, "mc": mc}
+    for f in files:
+        os.remove(f)
+    cache_put(key, res)
+    return res
